@@ -27,6 +27,9 @@ type Item struct {
 	Kind  string `json:"kind"`             // progress roots tool ping list | (s2c) sprogress slog sping sroots ssample
 	DurMs int    `json:"dur_ms"`           // virtual handler duration on the receiving side
 	GapMs int    `json:"gap_ms,omitempty"` // virtual pause of the sender before this item
+	// CallBack (notifications on single-stream links): the receiving handler first pings the sender with
+	// its own handler context and waits for the answer, then does its work.
+	CallBack bool `json:"call_back,omitempty"`
 }
 
 type Script struct {
@@ -59,11 +62,15 @@ func genScript(rt *rapid.T) Script {
 	}
 	n := rapid.IntRange(2, 15).Draw(rt, "n")
 	for i := 0; i < n; i++ {
-		s.Items = append(s.Items, Item{
+		it := Item{
 			Kind:  rapid.SampledFrom(kinds).Draw(rt, "kind"),
 			DurMs: rapid.SampledFrom(durs).Draw(rt, "dur"),
 			GapMs: rapid.SampledFrom([]int{0, 0, 0, 1, 7}).Draw(rt, "gap"),
-		})
+		}
+		if singleStream := s.Link.Kind == wire.InMem || s.Link.Kind == wire.Pipe || s.Link.Kind == wire.SSE; singleStream && isNotif(it.Kind) {
+			it.CallBack = rapid.IntRange(0, 2).Draw(rt, "callback") == 0
+		}
+		s.Items = append(s.Items, it)
 	}
 	return s
 }
@@ -138,17 +145,27 @@ func runInBubble(s Script) (res vt.Result) {
 	rcv := &recorder{}
 	// durations by (method, ordinal of that method) as the receiving handlers see them
 	durOf := map[string][]int{}
+	cbOf := map[string][]bool{}
 	for _, it := range s.Items {
 		m := methodOf[it.Kind]
 		durOf[m] = append(durOf[m], it.DurMs)
+		cbOf[m] = append(cbOf[m], it.CallBack)
 	}
 	var hmu sync.Mutex
 	ord := map[string]int{}
-	sleepFor := func(method string) {
+	sleepFor := func(ctx context.Context, method string, req mcp.Request) {
 		hmu.Lock()
 		k := ord[method]
 		ord[method]++
 		hmu.Unlock()
+		if k < len(cbOf[method]) && cbOf[method][k] {
+			switch sess := req.GetSession().(type) {
+			case *mcp.ServerSession:
+				sess.Ping(ctx, nil)
+			case *mcp.ClientSession:
+				sess.Ping(ctx, nil)
+			}
+		}
 		if k < len(durOf[method]) && durOf[method][k] > 0 {
 			time.Sleep(time.Duration(durOf[method][k]) * time.Millisecond)
 		}
@@ -158,7 +175,7 @@ func runInBubble(s Script) (res vt.Result) {
 		return func(ctx context.Context, method string, req mcp.Request) (mcp.Result, error) {
 			switch method {
 			case "tools/call", "ping", "tools/list", "notifications/progress", "notifications/roots/list_changed", "notifications/message", "roots/list", "sampling/createMessage":
-				sleepFor(method)
+				sleepFor(ctx, method, req)
 			}
 			return next(ctx, method, req)
 		}
@@ -258,6 +275,10 @@ func runInBubble(s Script) (res vt.Result) {
 		k := counts[m]
 		counts[m]++
 		fmt.Fprintf(&desc, "%s%d,", it.Kind, durClass(it.DurMs))
+		if it.CallBack {
+			desc.WriteString("cb,")
+			res.Class("notification_handler_calls_back")
+		}
 		var nerr error
 		switch it.Kind {
 		case "progress":
